@@ -65,9 +65,13 @@ def gen_panel(r, g, n_geos, n_dates, cls='continuous', id_style='str', origin=No
   if origin is None:
     origin = datetime.date(2019, 1, 1) + datetime.timedelta(days=r.randrange(0, 900))
   days = [origin + datetime.timedelta(days=i) for i in range(D)]
-  sizes = np.exp(g.normal(0.0, 0.9, size=G)) * 100.0
-  if G >= 3 and r.random() < 0.3:
-    sizes[r.randrange(G)] *= 8.0          # one dominant geo (share / budget exclusions)
+  profile = r.random()
+  if profile < 0.3:
+    sizes = g.uniform(0.75, 1.25, size=G) * 100.0      # flat: similar-sized geos (group shares interleave)
+  else:
+    sizes = np.exp(g.normal(0.0, 0.9, size=G)) * 100.0
+    if G >= 3 and profile > 0.7:
+      sizes[r.randrange(G)] *= 8.0          # one dominant geo (share / budget exclusions)
   t = np.arange(D)
   common = np.cumsum(g.normal(0, 1.0, size=D)) + 3.0 * np.sin(2 * np.pi * t / 7.0 + r.random() * 6)
   loadings = np.array([weighted(r, [(1.0, 5), (0.9, 2), (0.2, 1), (-0.5, 1)]) for _ in range(G)])
@@ -122,6 +126,8 @@ def panel_frame(panel, r=None, shuffle=True, response='response', extra_col=Fals
     for k, d in enumerate(dates):
       if present[i, k]:
         rows.append((gid, d, float(vals[i, k])))
+  for i, k, v in panel.get('dups') or []:
+    rows.append((ids[i], dates[k], float(v)))      # restated (geo, date) rows: the pivot averages them
   if shuffle and r is not None:
     r.shuffle(rows)
   df = pd.DataFrame(rows, columns=['geo', 'date', response])
@@ -271,7 +277,15 @@ def gen_params(r, panel, elig_rows, focus=None, allow=('size', 'ratio', 'volume'
     sub = r.sample(range(G), min(k, G))
     s = float(shares[sub].sum())
     mode = r.random()
-    if mode < 0.5:
+    if mode < 0.5 and 3 <= G <= 10:
+      # lower bound that binds among multi-geo treatment groups, upper bound generous: some groups of a
+      # given size are too small while later ones of the same size are fine
+      k2 = r.choice([2, 2, 3]) if G >= 4 else 2
+      sums = sorted(float(shares[list(c)].sum()) for c in itertools.combinations(range(G), k2))
+      lo = sums[int(r.uniform(0.2, 0.8) * (len(sums) - 1))] * r.choice([0.999, 1.001])
+      hi = r.uniform(max(lo * 1.05, 0.6), 0.999)
+      mode = 2.0
+    elif mode < 0.5:
       lo, hi = max(1e-6, s * r.uniform(0.3, 0.9)), min(0.999999, s * r.uniform(1.1, 2.0))
     elif mode < 0.7:
       lo, hi = 1e-6, min(0.999999, max(2e-6, s))
@@ -279,7 +293,7 @@ def gen_params(r, panel, elig_rows, focus=None, allow=('size', 'ratio', 'volume'
       lo, hi = min(0.99, max(1e-6, s)), 0.999999
     else:
       lo, hi = 0.001, 0.999
-    if lo < hi:
+    if lo < hi < 1:
       kw['treatment_share_range'] = (lo, hi)
   if 'budget' in kinds:
     budgets = []
